@@ -196,6 +196,7 @@ func TestSelf(t *testing.T) {
 	selfJudge(t)
 	selfProv(t)
 	selfCLIRule(t)
+	selfStore(t)
 
 	if c := content(Case{Fill: "text", Len: 10, Seed: 1}); len(c) != 10 {
 		selfFail(t, "content length %d, want 10", len(c))
@@ -383,5 +384,79 @@ func selfCLIRule(t *testing.T) {
 	}
 	if n.norm() != n {
 		selfFail(t, "CLI norm is not idempotent")
+	}
+}
+
+// selfStore: leftovers are what the rule says (names desync's Prune recognises as temporary,
+// inside the chunk's prefix directory, never one of the two chunk names), the picture filter
+// hides exactly the planted files, and the required classes can be produced.
+func selfStore(t *testing.T) {
+	data := textBytes(999, 5)
+	sid := sumID(data)
+	classes := map[string]bool{"store:leftover:none": true}
+	names := map[string]bool{}
+	for _, n := range leftoverNames {
+		for _, c := range leftoverContents {
+			for when := 0; when < 2; when++ {
+				l := Leftover{Name: n, Content: c, When: when}
+				if l.norm() != l {
+					selfFail(t, "leftover norm changes %+v", l)
+				}
+				fn := l.fileName(sid, 12345)
+				if !strings.HasPrefix(fn, ".tmp-cacnk") || strings.Contains(fn, "/") || fn == sid || fn == sid+".cacnk" {
+					selfFail(t, "leftover %+v has the name %q", l, fn)
+				}
+				if l.sameID() != strings.Contains(fn, sid) {
+					selfFail(t, "leftover %+v: name %q and sameID()=%v disagree", l, fn, l.sameID())
+				}
+				names[fn] = true
+				b := l.bytes(data)
+				if (c == "empty") != (len(b) == 0) || (strings.HasPrefix(c, "partial") && len(b) >= len(data)) {
+					selfFail(t, "leftover %+v has %d bytes", l, len(b))
+				}
+				for _, cl := range l.classes() {
+					classes[cl] = true
+				}
+			}
+		}
+	}
+	if len(names) != len(leftoverNames) {
+		selfFail(t, "%d distinct leftover names for %d kinds", len(names), len(leftoverNames))
+	}
+	for _, k := range concKinds {
+		classes["store:concurrent-same-id:"+k] = true
+	}
+	classes["store:concurrent-same-id:two-formats-at-once"], classes["store:concurrent-same-id:same-format"] = true, true
+	for _, r := range storeRequired() {
+		if !classes[r] {
+			selfFail(t, "required class %q cannot be produced", r)
+		}
+	}
+	pic := snap{files: map[string][]byte{"ab/x": {1}, "ab/.tmp-cacnk.1": {2}}, dirs: []string{"ab"}}
+	if got := pic.without(map[string]bool{"ab/.tmp-cacnk.1": true}); len(got.files) != 1 || got.files["ab/x"] == nil || len(pic.files) != 2 {
+		selfFail(t, "picture filter: %v", got.names())
+	}
+	if (Leftover{Name: "?", Content: "?", When: 7}).norm() != (Leftover{Name: "id", Content: "empty"}) {
+		selfFail(t, "norm of a nonsense leftover")
+	}
+	if cc := (ConcCase{Kind: "?", Rounds: -1, LenKiB: 1 << 20, Spin: -3}).norm(); cc != (ConcCase{Kind: "both-formats", Rounds: 1, LenKiB: 1024}) {
+		selfFail(t, "norm of a nonsense concurrent case: %+v", cc)
+	}
+	// the object check tells the three outcomes apart
+	dir := t.TempDir()
+	if p, _ := objectOK(dir, sid, true, data, true); p != "nil-but-no-object" {
+		selfFail(t, "object check on an empty directory: %q", p)
+	}
+	mustWrite(dir+"/"+sid[:4]+"/"+sid, data)
+	mustWrite(dir+"/"+sid[:4]+"/"+sid+".cacnk", data)
+	if p, _ := objectOK(dir, sid, true, data, true); p != "" {
+		selfFail(t, "object check on a correct raw file: %q", p)
+	}
+	if p, _ := objectOK(dir, sid, false, data, true); p != "bad-object" {
+		selfFail(t, "object check on raw bytes in the .cacnk file: %q", p)
+	}
+	mustWrite(dir+"/"+sid[:4]+"/"+sid+".cacnk", same.Compress(data))
+	if p, _ := objectOK(dir, sid, false, data, true); p != "" {
+		selfFail(t, "object check on a correct .cacnk file: %q", p)
 	}
 }
